@@ -1,4 +1,5 @@
 import GoitProofs.Props.C03Conn
+import GoitProofs.Props.C19
 set_option linter.unusedSimpArgs false
 set_option linter.unusedVariables false
 
@@ -223,4 +224,276 @@ theorem configCmd_no_crash (f : Option Bytes) (k v : Bytes) : Cmds.configCmd f k
   repeat' split
   all_goals simp
 
+/-! ### ids that come out of `ReadHash` are never empty (so `hash.String()[:2]` never slices an empty string) -/
+
+theorem hexrun_len (need run : Nat) (s : Bytes) (h : hasLowerHexRun need run s = true) : need ≤ run + s.length := by
+  induction s generalizing run with
+  | nil => simp [hasLowerHexRun] at h; omega
+  | cons c cs ih =>
+    unfold hasLowerHexRun at h
+    split at h
+    · simp; omega
+    · split at h
+      · have := ih (run + 1) h; simp; omega
+      · have := ih 0 h; simp; omega
+
+theorem decode_len : ∀ (s b : Bytes), Hex.decode? s = some b → b.length * 2 = s.length
+  | [], b, h => by simp [Hex.decode?] at h; subst h; rfl
+  | [_], b, h => by simp [Hex.decode?] at h
+  | a :: c :: rest, b, h => by
+    unfold Hex.decode? at h
+    split at h
+    · rename_i x y r hx hy hr
+      injection h with h; subst h
+      have := decode_len rest r hr
+      simp; omega
+    · cases h
+
+theorem readHash_ne_nil (s id : Bytes) (h : readHash s = some id) : id ≠ [] := by
+  unfold readHash at h
+  split at h
+  · rename_i hr
+    have h1 := hexrun_len 40 0 s hr
+    have h2 := decode_len s id h
+    intro e; subst e; simp at h2; omega
+  · cases h
+
+theorem get_no_crash (H : HashFn) (st : Store) (id : Bytes) (h : id ≠ []) : Store.get H st id ≠ .crash := by
+  intro hc; exact h ((C19.get_crash_iff H st id).mp hc)
+
+/-- every parent id of a parsed commit is non-empty -/
+theorem header_parents (c : Commit) (ls : List Bytes) (c' : Commit) (rest : List Bytes)
+    (hc : ∀ p ∈ c.parents, p ≠ []) (h : Commit.header c ls = some (c', rest)) : ∀ p ∈ c'.parents, p ≠ [] := by
+  induction ls generalizing c with
+  | nil => simp [Commit.header] at h; rw [← h.1]; exact hc
+  | cons l ls ih =>
+    unfold Commit.header at h
+    split at h
+    · simp at h; rw [← h.1]; exact hc
+    · split at h
+      · split at h
+        · exact ih _ (by simpa using hc) h
+        · cases h
+      · split at h
+        · split at h
+          · rename_i hh hr
+            apply ih _ _ h
+            intro p hp
+            simp only [List.mem_append, List.mem_singleton] at hp
+            rcases hp with hp | hp
+            · exact hc p hp
+            · subst hp; exact readHash_ne_nil _ _ hr
+          · cases h
+        · split at h
+          · split at h
+            · exact ih _ (by simpa using hc) h
+            · cases h
+          · split at h
+            · split at h
+              · exact ih _ (by simpa using hc) h
+              · cases h
+            · exact ih _ hc h
+
+theorem parse_parents (data : Bytes) (c : Commit) (h : Commit.parse data = some c) : ∀ p ∈ c.parents, p ≠ [] := by
+  unfold Commit.parse at h
+  split at h
+  · cases h
+  · rename_i c0 rest hh
+    injection h with h
+    rw [← h]
+    exact header_parents {} _ c0 rest (by simp) hh
+
+theorem walk_no_crash (H : HashFn) (st : Store) (k : Nat) (queue visited : List Bytes) (hq : ∀ p ∈ queue, p ≠ []) :
+    History.walk H st k queue visited ≠ .crash := by
+  induction k generalizing queue visited with
+  | zero => simp [History.walk]
+  | succ k ih =>
+    cases queue with
+    | nil => simp [History.walk]
+    | cons cur queue =>
+      unfold History.walk
+      split
+      · exact ih _ _ (fun p hp => hq p (List.mem_cons_of_mem _ hp))
+      · cases hg : Store.get H st cur with
+        | crash => exact absurd hg (get_no_crash H st cur (hq cur List.mem_cons_self))
+        | err => simp
+        | ok kd =>
+          obtain ⟨kind, data⟩ := kd
+          dsimp only
+          split
+          · simp
+          · cases hp : Commit.parse data with
+            | none => simp
+            | some c =>
+              dsimp only
+              have := ih (queue ++ c.parents) (cur :: visited) (by
+                intro p hp'
+                simp only [List.mem_append] at hp'
+                rcases hp' with h1 | h1
+                · exact hq p (List.mem_cons_of_mem _ h1)
+                · exact parse_parents data c hp p h1)
+              cases hw : History.walk H st k (queue ++ c.parents) (cur :: visited) with
+              | crash => exact absurd hw this
+              | err => simp
+              | ok r => simp
+
+theorem load_head_ne_nil (H : HashFn) (w : World) (l : Loaded) (hl : load H w = some l) (id : Bytes) (c : Commit)
+    (hc : l.headCommit = some (id, c)) : id ≠ [] := by
+  obtain ⟨_, raw, _, hr⟩ := load_headCommit H w l hl id c hc
+  exact readHash_ne_nil raw id hr
+
+/-! ### no invocation crashes -/
+
+macro "nocrash_by " f:ident : tactic => `(tactic| (
+  unfold $f
+  try dsimp only
+  repeat' split
+  all_goals first
+    | (intro h; cases h; done)
+    | (rename_i hx; exact absurd hx (refs_add_no_crash _ _ _))
+    | (rename_i hx; exact absurd hx (refs_rename_no_crash _ _ _))
+    | (rename_i hx; exact absurd hx (refs_delete_no_crash _ _ _))
+    | (rename_i hx; exact absurd hx (commitCmd_no_crash _ _))
+    | (rename_i hx; exact absurd hx (configCmd_no_crash _ _ _))
+    | (rename_i hx _; exact absurd hx (refs_rename_no_crash _ _ _))))
+
+theorem branchCreate_nc (w l n tz ts) : (branchCreate w l n tz ts).2 ≠ .crash := by nocrash_by branchCreate
+theorem branchRename_nc (w l r tz ts) : (branchRename w l r tz ts).2 ≠ .crash := by nocrash_by branchRename
+theorem branchDelete_nc (w l d) : (branchDelete w l d).2 ≠ .crash := by nocrash_by branchDelete
+theorem switchTo_nc (H) (w l n tz ts) : (switchTo H w l n tz ts).2 ≠ .crash := by nocrash_by switchTo
+theorem switchCreate_nc (w l c tz ts) : (switchCreate w l c tz ts).2 ≠ .crash := by nocrash_by switchCreate
+theorem updateRefTo_nc (w l b id d) : (updateRefTo w l b id d).2 ≠ .crash := by nocrash_by updateRefTo
+theorem resetTo_nc (H) (w l s h arg t prev tz ts) : (resetTo H w l s h arg t prev tz ts).2 ≠ .crash := by nocrash_by resetTo
+theorem commitWrite_nc (H) (w l id data msg tz ts) : (commitWrite H w l id data msg tz ts).2 ≠ .crash := by nocrash_by commitWrite
+theorem configCmd_nc (w g args) : (configCmd w g args).2 ≠ .crash := by nocrash_by configCmd
+theorem initCmd_nc (w) : (initCmd w).2 ≠ .crash := by nocrash_by initCmd
+theorem rmCmd_nc (w l args) : (rmCmd w l args).2 ≠ .crash := by nocrash_by rmCmd
+
+theorem addCmd_nc (H) (w l args) : (addCmd H w l args).2 ≠ .crash := by
+  unfold addCmd
+  dsimp only
+  repeat' split
+  all_goals first
+    | (intro h; cases h; done)
+    | (rename_i hc; rw [addArgsP_no_crash] at hc; cases hc)
+
+theorem restoreWorkP_nc (H idx) : ∀ (w : World) (args : List Bytes), (restoreWorkP H idx w args).2 ≠ .crash
+  | w, [] => by simp [restoreWorkP]
+  | w, a :: rest => by
+    unfold restoreWorkP
+    dsimp only
+    split
+    · intro h; cases h
+    · split
+      · exact restoreWorkP_nc H idx _ rest
+      · intro h; cases h
+      · intro h; cases h
+
+theorem restoreCmd_nc (H) (w l st args) : (restoreCmd H w l st args).2 ≠ .crash := by
+  unfold restoreCmd
+  dsimp only
+  repeat' split
+  all_goals first | (intro h; cases h; done) | exact restoreWorkP_nc H _ _ _
+
+theorem commitCmd_nc (H) (w l msg tz ts) : (commitCmd H w l msg tz ts).2 ≠ .crash := by
+  unfold commitCmd
+  dsimp only
+  repeat' split
+  all_goals first
+    | (intro h; cases h; done)
+    | exact commitWrite_nc H w l _ _ msg tz ts
+    | (rename_i hx; exact absurd hx (commitCmd_no_crash _ _))
+
+theorem branchCmd_nc (w l args list ren del tz ts) : (branchCmd w l args list ren del tz ts).2 ≠ .crash := by
+  unfold branchCmd
+  dsimp only
+  repeat' split
+  all_goals first
+    | (intro h; cases h; done) | exact branchCreate_nc _ _ _ _ _ | exact branchRename_nc _ _ _ _ _ | exact branchDelete_nc _ _ _
+
+theorem switchCmd_nc (H) (w l args c tz ts) : (switchCmd H w l args c tz ts).2 ≠ .crash := by
+  unfold switchCmd
+  repeat' split
+  all_goals first | (intro h; cases h; done) | exact switchTo_nc H _ _ _ _ _ | exact switchCreate_nc _ _ _ _ _
+
+theorem updateRefCmd_nc (H) (w l args) : (updateRefCmd H w l args).2 ≠ .crash := by
+  unfold updateRefCmd
+  repeat' split
+  all_goals first | (intro h; cases h; done) | exact updateRefTo_nc _ _ _ _ _
+
+theorem resetCmd_nc (H) (w l s m h args tz ts) : (resetCmd H w l s m h args tz ts).2 ≠ .crash := by
+  unfold resetCmd
+  repeat' split
+  all_goals first | (intro h; cases h; done) | exact resetTo_nc H _ _ _ _ _ _ _ _ _
+
+theorem catFileCmd_nc (H) (w t p args) : catFileCmd H w t p args ≠ .crash := by
+  unfold catFileCmd
+  repeat' split
+  all_goals first
+    | (intro h; cases h; done)
+    | (rename_i hr _ _ hg; exact absurd hg (get_no_crash H _ _ (readHash_ne_nil _ _ hr)))
+    | (rename_i hr _ hg; exact absurd hg (get_no_crash H _ _ (readHash_ne_nil _ _ hr)))
+    | (rename_i hr _ _ _ hg; exact absurd hg (get_no_crash H _ _ (readHash_ne_nil _ _ hr)))
+
+theorem hashObjectCmd_nc (H) (w : World) : ∀ (args : List Bytes) (acc : Bytes), hashObjectCmd H w args acc ≠ .crash
+  | [], acc => by simp [hashObjectCmd]
+  | a :: rest, acc => by
+    unfold hashObjectCmd
+    repeat' split
+    all_goals first | (intro h; cases h; done) | exact hashObjectCmd_nc H w rest _
+
+theorem revParseCmd_nc (w : World) (l : Loaded) : ∀ (args : List Bytes) (acc : Bytes), revParseCmd w l args acc ≠ .crash
+  | [], acc => by simp [revParseCmd]
+  | a :: rest, acc => by
+    unfold revParseCmd
+    repeat' split
+    all_goals first | (intro h; cases h; done) | exact revParseCmd_nc w l rest _
+
+theorem logCmd_nc (H : HashFn) (w : World) (l : Loaded) (hl : load H w = some l) (hn : ¬ l.headCommit.isNone = true) (anyB : Bool) (k : Int) :
+    Cmds.logCmd H (store w) anyB ((l.headCommit.map (·.1)).getD []) k ≠ .crash := by
+  cases hc : l.headCommit with
+  | none => rw [hc] at hn; simp at hn
+  | some ic =>
+    obtain ⟨id, c⟩ := ic
+    have hne := load_head_ne_nil H w l hl id c hc
+    unfold Cmds.logCmd History.log
+    split
+    · intro h; cases h
+    · simp only [Option.map_some, Option.getD_some]
+      have := walk_no_crash H (store w) k.toNat [id] [] (by intro p hp; simp at hp; subst hp; exact hne)
+      cases hw : History.walk H (store w) k.toNat [id] [] with
+      | crash => exact absurd hw this
+      | err => simp [Res.map]
+      | ok r => simp [Res.map]
+
+/-- **No invocation crashes, in any state.** -/
+theorem run_never_crashes (H : HashFn) (w : World) (i : Inv) : (run H w i).2 ≠ .crash := by
+  obtain ⟨cmd, tz, ts⟩ := i
+  unfold run
+  dsimp only
+  repeat' split
+  all_goals first
+    | (intro h; cases h; done)
+    | exact initCmd_nc _ | exact addCmd_nc H _ _ _ | exact rmCmd_nc _ _ _ | exact commitCmd_nc H _ _ _ _ _
+    | exact branchCmd_nc _ _ _ _ _ _ _ _ | exact switchCmd_nc H _ _ _ _ _ _ | exact resetCmd_nc H _ _ _ _ _ _ _ _
+    | exact restoreCmd_nc H _ _ _ _ | exact updateRefCmd_nc H _ _ _ | exact configCmd_nc _ _ _
+    | exact catFileCmd_nc H _ _ _ _ | exact hashObjectCmd_nc H _ _ _ | exact revParseCmd_nc _ _ _ _
+    | (rename_i hx; exact absurd hx (status_no_crash H _))
+    | (rename_i hl _ _ _ _ hx hn; exact absurd hx (logCmd_nc H w _ hl hn _ _))
+
 end W
+
+namespace C18
+
+/-- **No sub-command crashes on any state whatsoever** (whole-repository model): the answer of `W.run` is never
+    `crash` — not only on the states Goit produces, but on every repository content: unsorted or duplicate
+    staging entries, branch files in any order, dangling references, damaged objects. The out-of-range and
+    empty-id panics of the mechanisms are unreachable from the commands. -/
+theorem world_never_crashes (H : HashFn) (w : W.World) (i : W.Inv) : (W.run H w i).2 ≠ .crash :=
+  W.run_never_crashes H w i
+
+/-- and so along every history -/
+theorem world_history_never_crashes (H : HashFn) (w : W.World) (is : List W.Inv) (i : W.Inv) :
+    (W.run H (W.runAll H w is) i).2 ≠ .crash := W.run_never_crashes H _ i
+
+end C18
